@@ -17,7 +17,7 @@ def run(ctx):
                 "mutation followed by another call; distinct by (history, profile).")
     ctx.trusted += ["gamma materialisation", "reference encoders for import payloads"]
     runs = [
-        ("C05_2x2_sim", 2, 2, "simulate", 80 if not thorough else 350, 12),
+        ("C05_2x2_sim", 2, 2, "simulate", 40 if not thorough else 350, 12),
         ("C05_2x2_d3", 2, 2, "bfs" if thorough else "simulate", 100, 3),
     ]
     if thorough:
